@@ -86,15 +86,16 @@ def parseInt (s : Str) : Option Int :=
   | '+' :: ds => (parseDigits ds 0 false).map Int.ofNat
   | ds => (parseDigits ds 0 false).map Int.ofNat
 
-/-- `try: n = int(n)  except TypeError: pass` — a ValueError escapes -/
-def coerceCount : Val → Except Raise Val
-  | .int i => .ok (.int i)
-  | .bool b => .ok (.int (if b then 1 else 0))
-  | .none => .ok .none
-  | .elem u => .ok (.elem u)                 -- `int(element)` is a TypeError too
+/-- `try: n = int(n)  except (TypeError, ValueError): pass` — a count that is not a number
+    stays what it is -/
+def coerceCount : Val → Val
+  | .int i => .int i
+  | .bool b => .int (if b then 1 else 0)
+  | .none => .none
+  | .elem u => .elem u                       -- `int(element)` is a TypeError
   | .str s => match parseInt s with
-    | some i => .ok (.int i)
-    | none => .error .valueError
+    | some i => .int i
+    | none => .str s                         -- ValueError, caught since b2dcb3b
 
 /-- `n == 1` -/
 def isOne : Val → Bool
@@ -231,7 +232,7 @@ inductive Slot (α : Type)
 inductive ItemSlot (α : Type)
   | notSubscriptable          -- no `__getitem__`
   | keyError                  -- dict-like without the key
-  | typeError                 -- list / str / tuple state: `state['ugettext']` raises TypeError
+  | typeError                 -- list / str / tuple state: `state['ugettext']` raises TypeError (caught)
   | found (v : Option α)
   deriving Repr, Inhabited
 
@@ -277,7 +278,7 @@ def findTransformer {α} (st : StateSlots α) (anc : List (AncSlots α)) (builti
   | .absent =>
     match st.item with
     | .found v => .ok v
-    | .typeError => .error .typeError                 -- only KeyError is caught
+    | .typeError => .ok (findI18n anc builtin)        -- (KeyError, TypeError, IndexError) are caught
     | .keyError => .ok (findI18n anc builtin)
     | .notSubscriptable => .ok (findI18n anc builtin)
 
@@ -301,12 +302,13 @@ structure Env where
   nBuiltin : Slot NTr
 
 /-- the count `n` of a plural triple:
-    `try: n = format_map[n_key]; try: n = int(n) except TypeError: pass  except KeyError: n = n_key` -/
+    `try: n = format_map[n_key]; try: n = int(n) except (TypeError, ValueError): pass
+     except KeyError: n = n_key` -/
 def resolveCount (targets : List Target) (u : Option UTr) (nkey : Str) : Except Raise Val :=
   match fmLookup targets u nkey with
   | .error .keyError => .ok (.str nkey)
   | .error e => .error e
-  | .ok v => coerceCount v
+  | .ok v => .ok (coerceCount v)
 
 /-- the message text after pluralisation/translation, before `%` -/
 def chooseMessage (e : Env) (u : Option UTr) : Msg → Except Raise Str
